@@ -50,7 +50,7 @@ Record scase := {
 
 Definition image_agrees (m : img) (dump : list (string * sval)) : bool :=
   forallb (fun e => match kv_get m (fst e) with Some v => sval_eqb v (snd e) | None => false end) dump
-  && (length (kv_keys m) =? length dump)%nat.
+  && Nat.eqb (List.length (kv_keys m)) (List.length dump).
 
 (* 1 = results differ, 2 = final image differs, 3 = write log differs *)
 Definition check_case (c : scase) : list N :=
@@ -71,4 +71,4 @@ Definition mismatches := mismatches_from 0.
 
 (* which cases are inside the domain of the theorems *)
 Definition in_domain (c : scase) : bool := wf_history (sc_hist c).
-Definition count_in_domain (cs : list scase) : N := N.of_nat (length (filter in_domain cs)).
+Definition count_in_domain (cs : list scase) : N := N.of_nat (List.length (filter in_domain cs)).
